@@ -279,3 +279,22 @@ Section Conf.
         end
     end.
 End Conf.
+
+(* ------------------------------------------------------------------ a schema that defines what a universe refers to *)
+Fixpoint sub_tys (t : dty) : list dty :=
+  t :: match t with DArr _ _ e => sub_tys e | _ => [] end.
+Definition tys_of (U : univ) : list dty :=
+  flat_map (fun cl => flat_map (fun f => sub_tys (fl_ty f)) (k_own cl)) U.
+
+(** every class, every published leaf type and every Array class of the universe is defined
+    in the schema exactly as Spyne's emitter writes it (the schema may define more) *)
+Record resolves (S : schema) (U : univ) : Prop := mkresolves {
+  rs_klass : forall c cl, get_klass U c = Some cl ->
+    exists d, find_doc S (k_ns cl) = Some d /\ d_qualified d = true
+              /\ find_type S (k_ns cl, k_name cl) = Some (TComplex (cdef_of U cl));
+  rs_leaf : forall st, In (DLeaf st) (tys_of U) -> published st = true ->
+    exists q, st_qn st = Some q
+              /\ find_type S q = Some (TSimple (mksdef (snd q) (xs_ns, base_name (st_base st)) (restriction_of st)));
+  rs_arr : forall aq iname e, In (DArr aq iname e) (tys_of U) ->
+    exists d, find_doc S (fst aq) = Some d /\ d_qualified d = true
+              /\ find_type S aq = Some (TComplex (mkcdef (snd aq) None [PElem (edecl_of U iname e 0 PosInf true None)] [])) }.
